@@ -50,6 +50,8 @@ def run_property(ctx, mask, monitor, signature, streams, nontrivial=None):
             rng = ctx.case_rng(name, i)
             if kw.get('twins'):
                 recipe, _ = X.gen_twins(rng, gen=name)
+            elif kw.get('burst'):
+                recipe, _ = X.gen_burst(rng, gen=name)
             else:
                 recipe, _ = X.gen_history(rng, gen=name, **kw)
             recipe['case_index'] = i
